@@ -279,6 +279,96 @@ def gen_budget(r, size, priv):
     return g.ops
 
 
+def gen_unit(r, big):
+    """unit-level do_peer_exchange rounds with more than 200 listed peers (the capped branch)"""
+    ops, live = [], set()
+    n0 = r.choice([150, 199, 200, 201, 205, 230, 260])
+    ops.append("A0-%d:%d" % (n0 - 1, r.choice([1, 1000, 6000])))
+    live |= set(range(n0))
+    ops.append("x")
+    nxt = 300
+    for _ in range(r.randrange(2, 6 if not big else 10)):
+        c = r.random()
+        if c < 0.45 and live:
+            lo = r.choice(sorted(live))
+            hi = lo + r.randrange(0, 40)
+            ops.append("R%d-%d" % (lo, hi))
+            live -= set(range(lo, hi + 1))
+        elif c < 0.9:
+            k = r.randrange(1, 60)
+            base = r.choice([0, 1, 1000, 6000]) if r.random() < 0.2 else r.choice([1, 1000])
+            ops.append("A%d-%d:%d" % (nxt, nxt + k - 1, base))
+            live |= set(range(nxt, nxt + k))
+            nxt += k + r.randrange(0, 5)
+        ops.append("x")
+        if r.random() < 0.3:
+            ops.append("x")
+    return "U | " + " ".join(ops)
+
+
+UNIT_HAND = [
+    "U | A0-3:7000 x A10-12:0 x R1-2 x x R0-0 R3-3 x",
+    "U | A0-204:1000 x R3-5 A300-310:1000 x x R0-100 x A400-450:2000 x x",
+    "U | A0-250:1 x R10-30 x A260-300:1 x R0-5 x",
+    # three rounds over the cap (red-team seed 3: the re-sort of m_ut_pex_list in the capped branch)
+    "U | A100-320:1000 x A0-20:1000 x R150-160 x A400-405:1000 x R0-3 x x",
+]
+
+
+def unit_oracle(case, impl):
+    viol = []
+    if "ERR:" in impl or impl.startswith("CRASH") or impl in ("MISSING", "BADCASE"):
+        return [("crash", "implementation outcome %s" % impl[:120])]
+    live = {}
+    outs = impl.split(" ; ")
+    k = 0
+    for op in case.split("|", 1)[1].split():
+        if op[0] in "AR":
+            rng, _, base = op[1:].partition(":")
+            lo, hi = [int(x) for x in rng.split("-")]
+            for p in range(lo, min(hi, 4095) + 1):
+                if op[0] == "A":
+                    if p not in live:
+                        live[p] = 0 if not base or base == "0" else (int(base) + p) & 0xffff
+                else:
+                    live.pop(p, None)
+        elif op == "x":
+            if k >= len(outs):
+                break
+            seg = outs[k]
+            k += 1
+            conn = {"%d:%d" % (p, port) for p, port in live.items() if port != 0}
+
+            def ents(t):
+                return [] if t in (".", "-", "") else t.split(",")
+            m = re.search(r"list=(\S+) ini=(\S+) del=(\S+)", seg)
+            if not m:
+                viol.append(("crash", "unparsable round output"))
+                break
+            lst = ents(m.group(1))
+            for name, buf in (("initial", m.group(2)), ("delta", m.group(3))):
+                if buf == "-":
+                    continue
+                a, _, d = buf.partition("/")
+                for e in ents(a):
+                    if e not in conn:
+                        viol.append(("pex-added-not-connected", "round %d: %s message lists %s as added, not a connected peer with that listen port" % (k, name, e)))
+                for e in ents(d):
+                    if e in conn:
+                        viol.append(("pex-dropped-connected", "round %d: %s message reports the connected peer %s as dropped" % (k, name, e)))
+            for e in lst:
+                if e not in conn:
+                    viol.append(("pex-list-not-connected", "round %d: m_ut_pex_list keeps %s which is not connected" % (k, e)))
+            if len(lst) > 200:
+                viol.append(("pex-list-over-cap", "round %d: m_ut_pex_list has %d entries" % (k, len(lst))))
+    seen, out = set(), []
+    for kk, t in viol:
+        if kk not in seen:
+            seen.add(kk)
+            out.append((kk, t))
+    return out
+
+
 def gen_malformed(r, size, priv):
     g = Gen(r, size)
     g.connect(0)
@@ -342,6 +432,117 @@ def exhaustive_small(seed):
     return out
 
 
+# ------------------------------------------------------------------------------------------------
+# fetcher side (harness/c20f.cc): magnet download, scripted honest / lying providers
+
+F_HAND = [
+    (300, "c0:m1,s300 p0:0:ok t"),
+    (40000, "c0:m3,s40000 p0:0:ok p0:1:ok p0:2:ok t"),
+    (40000, "c0:m3,s40000 p0:2:ok p0:0:ok p0:1:ok"),
+    (40000, "c0:m3,s40000 p0:0:bad p0:1:ok p0:2:ok t p0:0:ok p0:1:ok p0:2:ok t"),
+    (40000, "c0:m3,s40000 p0:0:long p0:0:ok p0:1:short p0:1:ok p0:2:tot5"),
+    (40000, "c0:m3,s40000 p0:0:ok p0:0:ok p0:1:ok p0:5:ok p0:2:ok"),
+    (40000, "c0:m3,s40000 j0:0 p0:1:ok p0:2:ok t p0:0:ok t t"),
+    (40000, "c0:m3,s39999 p0:0:ok p0:1:ok p0:2:len7231"),
+    (40000, "c0:m3,s40001 p0:0:ok p0:1:ok p0:2:ok"),
+    (40000, "c0:m3,s40000 c1:m4,s40000 p0:0:bad p1:1:ok p0:2:ok p1:0:ok p0:1:ok t p0:0:ok p1:0:ok t"),
+    (300, "c0:m3,s0 c1:m3,s-1 c2:m3,s67108865"),
+    (300, "c0:m0,s300 t c1:s300 t c2:m5 t h2:m5,s299 t"),
+    (16384, "c0:m2,s16384 p0:0:ok"),
+    (32768, "c0:m2,s32768 p0:1:ok p0:0:ok"),
+    (300, "c0:m256,s300 t h0:m7 t p0:0:ok"),
+]
+
+
+def fcase(size, ops, seed=7):
+    return "F " + head(size, False, seed, 40, "f") + " | " + ops
+
+
+def gen_fetcher(r, size):
+    n = (size + PS - 1) // PS
+    ops = []
+    np_ = r.choice([1, 1, 2, 3])
+    liar_size = r.random() < 0.2
+    for i in range(np_):
+        f = []
+        c = r.random()
+        f.append("m" + (str(r.randrange(1, 9)) if c < 0.8 else r.choice(["0", "256", "-1", "255"])))
+        sz = size
+        if liar_size and i == 0:
+            sz = r.choice([size - 1, size + 1, size + PS, max(1, size - PS), 1])
+        if r.random() < 0.9:
+            f.append("s%d" % sz)
+        ops.append("c%d:%s" % (i, ",".join(f)))
+    kinds = ["ok"] * 6 + ["bad", "short", "long", "len0", "tot1", "tot%d" % (size + 5)]
+    for _ in range(r.randrange(n, 3 * n + 4)):
+        i = r.randrange(np_)
+        c = r.random()
+        if c < 0.8:
+            p = r.randrange(0, n) if r.random() < 0.9 else r.choice([n, n + 1, 99999])
+            ops.append("p%d:%d:%s" % (i, p, r.choice(kinds)))
+        elif c < 0.88:
+            ops.append("j%d:%d" % (i, r.randrange(0, n + 1)))
+        elif c < 0.95:
+            ops.append("t")
+        else:
+            ops.append("h%d:m%s" % (i, r.choice(["0", "3", "9"])))
+    # an honest tail so that completion is exercised after lies
+    if r.random() < 0.6:
+        ops.append("t")
+        order = list(range(n))
+        r.shuffle(order)
+        for p in order:
+            ops.append("p%d:%d:ok" % (r.randrange(np_), p))
+    return " ".join(ops)
+
+
+def gen_f(seed, tier):
+    r = random.Random(seed * 7919 + 13)
+    cases = [fcase(size, ops) for size, ops in F_HAND]
+    for _ in range(60 if tier != "thorough" else 300):
+        c = r.random()
+        size = PS * r.randrange(1, 4) + r.choice([-1, 0, 1]) if c < 0.5 else r.randrange(MIN_SIZE, 3 * PS)
+        cases.append(fcase(size, gen_fetcher(r, size), seed=r.randrange(1, 1000)))
+    return cases
+
+
+F_SNAP = re.compile(r"F\[size=(\d+) chunk=(\d+) done=(\d) have=(\d+) file=(\S+)\]")
+Q_RE = re.compile(r"Q(\d)\(id=(\d+),piece=(-?\d+)\)")
+
+
+def oracle_f(case, impl):
+    """magnet_completes_only_verified + ext ids of the requests, on the implementation's output"""
+    viol = []
+    if "ERR:" in impl or impl.startswith("CRASH") or impl in ("MISSING", "BADCASE"):
+        return [("crash", "implementation outcome %s" % impl[-160:])]
+    info, _, _ = parse_head(case[2:].split("|")[0])
+    want = "%d:%s" % (len(info), hashlib.md5(info).hexdigest())
+    adv = {}
+    for seg in impl.split(" ; "):
+        opname = seg.split(" => ")[0].strip()
+        if opname[:1] in "ch":
+            i = int(opname[1])
+            for f in opname[3:].split(","):
+                if len(f) >= 2 and f[0] == "m":
+                    adv.setdefault(i, []).append(int(f[1:]))
+        for m in Q_RE.finditer(seg):
+            i, eid = int(m.group(1)), int(m.group(2))
+            valid = [v for v in adv.get(i, []) if 0 < v < 256]
+            if eid == 0 or eid not in valid:
+                viol.append(("ext-id-not-advertised",
+                             "after '%s' a ut_metadata REQUEST was written with id %d to peer %d which advertised ut_metadata=%s" % (opname, eid, i, adv.get(i))))
+        m = F_SNAP.search(seg)
+        if m and m.group(3) == "1" and m.group(5) != want:
+            viol.append(("magnet-completed-unverified",
+                         "after '%s' the magnet download is done but the metadata file is %s, the info dictionary named by the magnet is %s" % (opname, m.group(5), want)))
+    seen, out = set(), []
+    for k, t in viol:
+        if k not in seen:
+            seen.add(k)
+            out.append((k, t))
+    return out
+
+
 def gen(seed, tier):
     r = random.Random(seed)
     cases, stats = [], {"corpus": 0, "hand": 0, "sweep": 0, "burst": 0, "ids": 0, "pex": 0, "budget": 0, "malformed": 0, "exhaustive": 0,
@@ -389,11 +590,18 @@ def gen(seed, tier):
                 continue
             cases.append(case(size, priv, r.randrange(1, 1000), minp, ops))
             stats[name] += 1
+    for u in UNIT_HAND:
+        cases.append(u)
+    for _ in range(25 if not big else 120):
+        cases.append(gen_unit(r, big))
+    stats["unit_pex_rounds"] = sum(1 for c in cases if c.startswith("U "))
     if big:
         ex = exhaustive_small(seed)
         cases += ex
         stats["exhaustive"] = len(ex)
     for c in cases:
+        if c.startswith("U "):
+            continue
         info, priv, _ = parse_head(c.split("|")[0])
         m = len(info) % PS
         stats["sizes_mod_16k"]["0" if m == 0 else "-1" if m == PS - 1 else "+1" if m == 1 else "other"] += 1
@@ -421,6 +629,8 @@ def _fields(s):
 
 def oracle(case, impl):
     """returns a list of (class token, text) — empty when the property holds on this output"""
+    if case.startswith("U "):
+        return unit_oracle(case, impl)
     viol = []
     if "ERR:internal" in impl:
         viol.append(("up-extension-internal-error", "an internal_error escaped the library's event loop (the client would abort) after: %s" % impl[-200:]))
